@@ -7,7 +7,7 @@
 (*         evaluated at dyadic reference points X/D (all at distance >= 1/D    *)
 (*         from the cell boundary) and at X +- 1/D along every axis:           *)
 (*         per cell  F, DF, invDF, detDF, Y = invF(F(X)), Z = F(Y), F at the   *)
-(*         reference vertices (exact integers), detDF as exact integer;        *)
+(*         reference vertices, detDF also as exact integer where it is one; *)
 (*         per facet G at the reference-facet vertices (exact integers), G,    *)
 (*         G at X +- 1/D, detDG, the normal taken from the owner cell          *)
 (*         f2t[0], Yf = invF(G(X), owner), ZG = F(Yf, owner)  -- the very      *)
@@ -89,8 +89,15 @@ GeomWF(e) ==
 \* ---- exact clauses ----------------------------------------------------------
 \* F at the reference vertices = the cell's vertices; G at the reference-facet vertices = the facet's vertices
 MapsVertices(e) ==
-  /\ \A k \in DOMAIN e.C : e.C[k].FV = CellPts(e, k)
-  /\ \A f \in DOMAIN e.Fa : e.Fa[f].GV = FacetPts(e, f)
+  \* (compared as numbers, not bit for bit: the statement does not promise that the map is evaluated without rounding)
+  /\ \A k \in DOMAIN e.C : /\ Len(e.C[k].FV) = NVerts(e.kind)
+                            /\ \A v \in 1..NVerts(e.kind) : /\ Len(e.C[k].FV[v]) = GDim(e.kind)
+                                                             /\ \A i \in 1..GDim(e.kind) :
+                                                                  Near(e.C[k].FV[v][i], FxRat(CellPts(e, k)[v][i], e.scale))
+  /\ \A f \in DOMAIN e.Fa : /\ Len(e.Fa[f].GV) = Len(e.facets[f])
+                             /\ \A v \in DOMAIN e.facets[f] : /\ Len(e.Fa[f].GV[v]) = GDim(e.kind)
+                                                              /\ \A i \in 1..GDim(e.kind) :
+                                                                   Near(e.Fa[f].GV[v][i], FxRat(FacetPts(e, f)[v][i], e.scale))
 \* detDF of a straight simplex = d! * signed volume (exact integer where delivered exactly)
 DetIsSignedVolume(e) ==
   (e.straight = 1 /\ Simplicial(e.kind)) =>
